@@ -26,6 +26,14 @@ def _is_mod(c):
     return None
 
 
+def _has_comparison(tok):
+    """'==' with something on both sides"""
+    for i in range(1, len(tok) - 2):
+        if tok[i] == "=" and tok[i + 1] == "=":
+            return True
+    return False
+
+
 def ref_token(tok):
     if "..." in tok:
         if tok == "...":
@@ -54,6 +62,9 @@ def ref_token(tok):
             tok = rest
             continue
         if neq != 0:
+            if neq == 2 and _has_comparison(tok):
+                # 'a==b': an equality comparison inside a symbolic expression, not a 'name=' prefix
+                break
             raise _Unspec("more than one '='")
         break
     bc, var, anon, tp = "#" in mods, "*" in mods, "_" in mods, "?" in mods
